@@ -356,6 +356,11 @@ func runMon(l *Ledger, rule, construct string, m *InterpModel, mon Monitor, okWh
 		l.Undecide(rule, construct, "", "clause not found in eval")
 		return
 	}
+	runMonG(l, rule, construct, m.G, mon, okWhy)
+}
+
+func runMonG(l *Ledger, rule, construct string, g *Graph, mon Monitor, okWhy string) {
+	m := struct{ G *Graph }{g}
 	ws := m.G.Run(mon)
 	for _, w := range ws {
 		l.Violate(rule, construct, posOf(w), w.Msg, witnessDetail(w))
